@@ -19,20 +19,38 @@ def log(*a):
     print(*a, flush=True)
 
 
-def write_replay(pid, v):
+def write_replay(pid, v, with_prefix=False, tasks=None):
     d = os.path.join(ROOT, "replays", pid)
     os.makedirs(d, exist_ok=True)
     case = {
+        "prefix_tasks": [tasks[j] for j in (v.get("prefix_idx") or [])] if (with_prefix and tasks) else [],
         "property": pid, "solver": v.get("solver"), "cfg": engine.jsonable(v.get("cfg")),
         "clause": v.get("clause"), "where": engine.jsonable(v.get("where")),
         "value": engine.jsonable(v.get("value")), "tol": engine.jsonable(v.get("tol")),
         "detail": engine.jsonable(v.get("detail")), "vkey": v["vkey"], "task": v["task"],
     }
-    h = hashlib.sha1(json.dumps([case["task"], case["vkey"]], sort_keys=True).encode()).hexdigest()[:12]
+    h = hashlib.sha1(json.dumps([case["task"], case["vkey"], len(case["prefix_tasks"])], sort_keys=True).encode()).hexdigest()[:12]
     path = os.path.join(d, h + ".json")
     with open(path, "w") as f:
         json.dump(case, f, indent=1, sort_keys=True)
     return path
+
+
+def fresh_digest(pid, task):
+    """Observation digest of one task executed alone in a fresh interpreter (None on failure)."""
+    code = ("import sys, json; sys.path.insert(0, %r); import importlib, numpy as np; np.seterr(all='ignore'); "
+            "m = importlib.import_module('props.%s'); "
+            "getattr(m, 'preimport', lambda: None)(); "
+            "r = m.run_task(json.loads(sys.stdin.read())); print('XPMC-DIGEST ' + str(r.get('digest')))" % (ROOT, pid))
+    try:
+        p = subprocess.run([sys.executable, "-c", code], input=json.dumps(task), cwd=ROOT, stdout=subprocess.PIPE,
+                           stderr=subprocess.DEVNULL, text=True, timeout=3600)
+    except Exception:
+        return None
+    for line in p.stdout.splitlines():
+        if line.startswith("XPMC-DIGEST "):
+            return line.split(" ", 1)[1]
+    return None
 
 
 def fresh_replay(path):
@@ -82,7 +100,20 @@ def main(argv=None):
         for e in agg["errors"][:3]:
             log("HARNESS-ERROR task=%s\n%s" % (json.dumps(e["task"])[:300], e["detail"][-1500:]))
     if agg["nondeterministic_tasks"]:
-        harness_fault.append("%d task(s) gave different observations when re-executed" % len(agg["nondeterministic_tasks"]))
+        # a task that observes different values when re-executed in another worker is either harness nondeterminism or an
+        # implementation whose output depends on what ran before it in the process (C06's business).  Decide: run it alone in
+        # two fresh interpreters; identical observations there mean the difference came from the history.
+        hist_dep, truly = [], []
+        for i in agg["nondeterministic_tasks"][:4]:
+            d1, d2 = fresh_digest(pid, agg_tasks[i]), fresh_digest(pid, agg_tasks[i])
+            (hist_dep if (d1 is not None and d1 == d2) else truly).append(i)
+        if hist_dep:
+            log("HISTORY-DEPENDENCE-OBSERVED: %d task(s) observe different values depending on the tasks executed before them in the "
+                "same process (deterministic when run alone); value dependence on history is property C06; e.g. task %s" % (
+                    len(hist_dep), json.dumps(agg_tasks[hist_dep[0]])[:200]))
+            extra_hist = len(hist_dep)
+        if truly:
+            harness_fault.append("%d task(s) gave different observations when re-executed alone" % len(truly))
     for fid, vs in sorted(known.items()):
         f = [x for x in fl if x["id"] == fid][0]
         log("KNOWN-FINDING: property=%s %s: %s (%d case(s) this run)" % (pid, fid, f.get("what", ""), len(vs)))
@@ -105,9 +136,18 @@ def main(argv=None):
             if rc == 1:
                 confirmed += 1
             elif rc == 0:
-                harness_fault.append("candidate did not reproduce in a fresh interpreter: %s" % path)
-                log("HARNESS-NONDETERMINISM %s\n%s" % (path, out[-800:]))
-                continue
+                # not reproducible alone: is it reproducible after the tasks its worker had run before (a history)?
+                path2 = write_replay(pid, v, with_prefix=True, tasks=agg_tasks) if v.get("prefix_idx") else None
+                rc2, out2 = fresh_replay(path2) if path2 else (0, "")
+                if rc2 == 1:
+                    confirmed += 1
+                    path = path2
+                    log("HISTORY-DEPENDENT: the violation below does not occur when its task runs alone in a fresh interpreter but "
+                        "reproduces after the %d task(s) its worker had executed before (recorded in the replay file)" % len(v["prefix_idx"]))
+                else:
+                    harness_fault.append("candidate did not reproduce in a fresh interpreter: %s" % path)
+                    log("HARNESS-NONDETERMINISM %s\n%s" % (path, out[-800:]))
+                    continue
             else:
                 harness_fault.append("replay harness failed on %s" % path)
                 log(out[-1500:])
